@@ -242,6 +242,35 @@ pub fn buildcase(cfg: &Cfg, out: &mut Out<f64>) {
 /// Ok/Err mapping of fit and fit_with_statistics on concrete tiny problems (native replay for Engine M, C04/C09/C12)
 pub fn fitmap(cfg: &Cfg, out: &mut Out<f64>) {
     let with_stats = cfg.usize("stats", 0) == 1;
+    // every termination reason of the optimizer: FitResult::was_successful must agree with the reason's own
+    // notion of success (fit() maps exactly this to Ok / Err)
+    {
+        use levenberg_marquardt::{MinimizationReport, TerminationReason as TR};
+        let reasons: Vec<TR> = vec![
+            TR::User("x"), TR::Numerical("x"), TR::ResidualsZero, TR::Orthogonal,
+            TR::Converged { ftol: true, xtol: false }, TR::Converged { ftol: false, xtol: true }, TR::Converged { ftol: true, xtol: true }, TR::Converged { ftol: false, xtol: false },
+            TR::NoImprovementPossible("x"), TR::LostPatience, TR::NoParameters, TR::NoResiduals, TR::WrongDimensions("x"),
+        ];
+        for reason in reasons {
+            let (x, y, start) = data(5, 1);
+            let model = NModel { x, alpha: start, poison: None, calls: Cell::new(0), fail_at: None, persistent: false, log: Default::default() };
+            let problem = LevMarProblemBuilder::new(model).observations(y).build().unwrap();
+            let want = reason.was_successful();
+            let txt = format!("{reason:?}");
+            let fr = FitResult { problem, minimization_report: MinimizationReport { termination: reason, number_of_evaluations: 1, objective_function: 0.0 } };
+            out.fact("C04.was_successful_agrees_with_termination_reason", fr.was_successful() == want, format!("FitResult::was_successful() = {} for {txt}", fr.was_successful()));
+        }
+        // the evaluation budget of the caller's configuration: a fit that loses patience is a failed fit
+        let (x, y, start) = data(8, 2);
+        let model = NModel { x, alpha: start.map(|v| v * 3.0), poison: None, calls: Cell::new(0), fail_at: None, persistent: false, log: Default::default() };
+        let problem = LevMarProblemBuilder::new(model).observations(y).build().unwrap();
+        let solver = LevMarSolver::with_solver(levenberg_marquardt::LevenbergMarquardt::new().with_patience(1));
+        let r = if with_stats { solver.fit_with_statistics(problem).map(|(f, _)| f) } else { solver.fit(problem) };
+        match r {
+            Ok(fr) => out.fact("C04.ok_iff_successful", fr.minimization_report.termination.was_successful(), format!("patience 1: Ok with {:?}", fr.minimization_report.termination)),
+            Err(fr) => out.fact("C04.ok_iff_successful", !fr.minimization_report.termination.was_successful(), format!("patience 1: Err with {:?}", fr.minimization_report.termination)),
+        }
+    }
     // (n, p, fail_at): converging fit, failing model, under-determined statistics
     for (n, p, fail_at) in [(6usize, 1usize, None), (6, 1, Some(1usize)), (6, 1, Some(4)), (3, 1, None), (2, 1, None), (8, 2, None)] {
         let (x, y, start) = data(n, p);
